@@ -141,7 +141,10 @@ func init() {
 		"(time.Time).IsZero": func(fr *frame, args []value) value { return st(args[0]).zero },
 		"(time.Time).UnixNano": func(fr *frame, args []value) value {
 			a := st(args[0])
-			if a.zero || a.far {
+			if a.zero {
+				return time.Time{}.UnixNano() // wraps; Go's result is deterministic
+			}
+			if a.far {
 				panic(modelAbort{"UnixNano of a time near year 1"})
 			}
 			return a.ns
